@@ -176,28 +176,69 @@ class Layer(object):
             self.handover = cands[0]
 
 
+def callback_target(ctx, cls, p, it, cb):
+    """(method of cls, bound leading arguments) that a registered callback value ends up calling with the future:
+    self.m / partial(self.m, a, b) / a wrapper object around one of those / a closure `lambda f: self.m(a, f)`
+    (also when it is produced by a helper method that was inlined).  (None, None) when not recognised."""
+    from .interp import CLOSURES
+    cb = unwrap(ctx, p, cb, it)
+    boundargs = ()
+    if isinstance(cb, tuple) and cb and cb[0] == "partial":
+        boundargs = tuple(cb[2])
+        cb = cb[1]
+    if isinstance(cb, tuple) and cb and cb[0] == "attr" and cb[1] == SELF:
+        o, mm = cls.lookup(cb[2])
+        return (mm, boundargs) if mm is not None else (None, None)
+    if isinstance(cb, tuple) and cb and cb[0] == "closure":
+        sub, env = CLOSURES[cb[2]][0], CLOSURES[cb[2]][1]
+        if len(sub.params) != 1 or sub.vararg or sub.kwarg:
+            return None, None
+        ps, _ = ctx.paths(sub, None, depth=0)
+        found = set()
+        for sp in ps:
+            if sp.status == "raise":
+                continue
+            cs = [e for e in sp.calls() if isinstance(e.d["func"], tuple) and e.d["func"][0] == "attr" and (e.d["func"][1] in (("free", "self"), SELF) or env.get(e.d["func"][1][1] if isinstance(e.d["func"][1], tuple) and len(e.d["func"][1]) > 1 else None) == SELF)]
+            if len(cs) != 1 or len(sp.calls()) != 1:
+                return None, None
+            args = []
+            for a_ in cs[0].d["args"]:
+                if a_ == ("param", sub.params[0]):
+                    args.append(("<future>",))
+                elif isinstance(a_, tuple) and a_[0] == "free":
+                    args.append(env.get(a_[1], a_))
+                else:
+                    args.append(a_)
+            if not args or args[-1] != ("<future>",) or cs[0].d["kwargs"]:
+                return None, None
+            found.add((cs[0].d["func"][2], tuple(args[:-1])))
+        if len(found) != 1:
+            return None, None
+        name, bargs = found.pop()
+        o, mm = cls.lookup(name)
+        return (mm, boundargs + bargs) if mm is not None else (None, None)
+    return None, None
+
+
 def registered_callbacks(ctx, cls):
-    """methods of cls registered as done-callbacks anywhere in cls (through self.<m>, partial(self.<m>, ..) or a
-    wrapper object)"""
+    """methods of cls registered as done-callbacks anywhere in cls (through self.<m>, partial(self.<m>, ..), a
+    wrapper object, or a closure that forwards to self.<m>)"""
     out = {}
+    own = set(m.key for c in cls.mro() if isinstance(c, ClassInfo) for m in c.methods.values())
     for c in cls.mro():
         if not isinstance(c, ClassInfo):
             continue
         for m in c.methods.values():
             if cls.lookup(m.name)[1] is not m:
                 continue
-            ps, it = ctx.paths(m, cls, depth=0)
+            ps, it = ctx.paths(m, cls, depth=2, inline=lambda callee, ev, path: (callee.key in own and callee.name != "__init__" and not is_dispatch(callee)) or inline_wrapper_ctor(callee, ev, path))
             for p in ps:
                 for e in p.calls():
                     if q.call_name(e) != "add_done_callback" or not e.d["args"]:
                         continue
-                    cb = unwrap(ctx, p, e.d["args"][0], it)
-                    if isinstance(cb, tuple) and cb[0] == "partial":
-                        cb = cb[1]
-                    if isinstance(cb, tuple) and cb[0] == "attr" and cb[1] == SELF:
-                        o, mm = cls.lookup(cb[2])
-                        if mm is not None:
-                            out[mm.key] = (mm, q.recv(e))
+                    mm, bargs = callback_target(ctx, cls, p, it, e.d["args"][0])
+                    if mm is not None:
+                        out[mm.key] = (mm, q.recv(e))
     return out
 
 
@@ -657,3 +698,57 @@ def _caller_holds(ctx, fi, ck, cik, Qx):
                 if not (r is not None and Qx.lock_held(e, r)):
                     return False
     return True
+
+
+class OpRoles(object):
+    """field names of a combinator operation object (the and/or operation, the zipper) from its constructor:
+       out   the field holding the output future (a future object allocated by the constructor)
+       lock  its lock field
+       done  the 'decided' flag (initialised False)
+       rest  the dict of inputs still outstanding (built from the constructor's argument), if any"""
+
+    def __init__(self, ctx, cls):
+        self.cls = cls
+        o, init = cls.lookup("__init__")
+        if init is None:
+            raise AnalysisError("%s: no constructor" % cls.name)
+        own = set(m.key for c in cls.mro() if isinstance(c, ClassInfo) for m in c.methods.values())
+        ps, it = ctx.paths(init, cls, depth=2, inline=lambda callee, ev, path: callee.key in own and callee.name != "__init__")
+        outs, dones, rests = set(), set(), set()
+        P0 = ("param", init.params[1]) if len(init.params) > 1 else None
+        for p in ps:
+            if p.status == "raise":
+                continue
+            for e in p.evs("store"):
+                t, v = e.d["target"], e.d["value"]
+                if not q.self_field(t):
+                    continue
+                tv = it.type_of(v, p) if isinstance(v, tuple) else None
+                if isinstance(v, tuple) and (v[0] == "extnew" and v[1] == "Future" or (v[0] == "new" and tv and ctx.types.cls_of(tv) is not None and any(str(getattr(b, "name", b)).endswith("Future") for b in ctx.types.cls_of(tv).mro()))):
+                    outs.add(t[2])
+                if v == ("const", False):
+                    dones.add(t[2])
+                dv = q.deref(p, v) if isinstance(v, tuple) else v
+                if isinstance(dv, tuple) and dv[0] in ("dict", "comp") and P0 is not None and (dv[0] == "dict" or (len(dv) > 3 and P0 in dv[3])):
+                    rests.add(t[2])
+            for e in p.evs("store"):
+                t = e.d["target"]
+                # self.fs[f] = True in a loop over the inputs
+                if isinstance(t, tuple) and t[0] == "sub" and q.self_field(t[1]):
+                    rests.add(t[1][2])
+        lf = lock_fields(ctx, cls)
+        if len(outs) != 1 or len(lf) != 1 or len(dones) != 1:
+            raise AnalysisError("%s: operation roles not identified (output %s, lock %s, decided flag %s)" % (cls.name, sorted(outs), lf, sorted(dones)))
+        self.out, self.lock, self.done = outs.pop(), lf[0], dones.pop()
+        self.rest = sorted(rests)[0] if len(rests) == 1 else None
+        self.OUT, self.LOCK, self.DONE = ("attr", SELF, self.out), ("attr", SELF, self.lock), ("attr", SELF, self.done)
+        self.REST = ("attr", SELF, self.rest) if self.rest else None
+
+
+def op_roles(ctx, cls):
+    cache = getattr(ctx, "_op_roles", None)
+    if cache is None:
+        cache = ctx._op_roles = {}
+    if cls.key not in cache:
+        cache[cls.key] = OpRoles(ctx, cls)
+    return cache[cls.key]
